@@ -28,7 +28,7 @@ def run(ck):
             else:
                 ck.inconclusive.append(f'{h.name} FAILED ({h.failed_checks[:3]}); no rule of the replay corpus reproduces a deviation natively (abstract counterexample not concretised)')
         else:
-            kprop.replay_search_failure(ck, B, h, int(re.search(r'_n(\\d)', h.name).group(1)))
+            kprop.replay_search_failure(ck, B, h, int(re.search(r'_n(\d)', h.name).group(1)))
     kprop.run_harnesses(ck, hs, on_fail=on_fail)
     f3_known_finding(ck)
     ck.functions += ['datetime::find::find_date_time', 'DateTime::find_n', 'FoundDateTimeListRefMut::{earliest,latest,data}', 'TimeZoneRef::find_local_time_type', 'TimeZoneRef::unix_leap_time_to_unix_time', 'DateTime::from_timespec_and_local']
